@@ -99,6 +99,12 @@ theorem parse_blank (T : Table) (b : List Char) (hb : AllWs b) : parse T b = .ok
 /-- data fact over the regenerated table: every entry is served under its own symbol -/
 theorem genTable_wf : genTable.wf = true := by decide +kernel
 
+/-- data fact: the rows of mass.py's `isotope_mass` name the elements of core.py's `element_base`
+    (same Z, same symbol), so the isotope lists are attached to the right entries -/
+theorem isotope_rows_match_elements :
+    PtGen.isotopeList.all (fun r => PtGen.elementBase.any (fun e => e.1 = r.1 && e.2.2.2.1 = r.2.1)) = true := by
+  decide +kernel
+
 /-! ## non-vacuity: canonical derivations with every feature, and what the theorems say of them -/
 
 def elH2 : Elem := ⟨[], ['H'], none, none, .whole ['2']⟩
@@ -124,6 +130,31 @@ example : water2.result genTable =
     some (.cons ⟨2, 0⟩ (.group (.cons ⟨2, 0⟩ (.atom ⟨1, 0, 0⟩) (.cons ⟨1, 0⟩ (.atom ⟨8, 0, 0⟩) .nil))) .nil, none) := by
   decide +kernel
 example : (mixed.result genTable).isSome = true := by decide +kernel
+
+/-- the full statement without the side conditions of `canon`: *every* token-well-formed derivation
+    with defined elements parses to what it denotes -/
+def parse_yield_full : Prop :=
+  ∀ (T : Table) (D : Compound) (r : Items Cnt × Option Dens), D.wf = true → D.result T = some r →
+    parse T D.text = .ok r
+
+/-- `6H2O`, a blank, `CaCO3` – two groups, as the guide reads it (known finding D19) -/
+def hydrate : Compound :=
+  .full []
+    (.more (.implicit (.whole ['6']) [elH2, elO []]) ⟨[' '], false, []⟩
+      (.one (.implicit .none [⟨[], ['C', 'a'], none, none, .none⟩, ⟨[], ['C'], none, none, .none⟩,
+        ⟨[], ['O'], none, none, .whole ['3']⟩]))) none []
+
+theorem parse_yield_full_counterexample : ¬ parse_yield_full := by
+  intro h
+  have hw : hydrate.wf = true := by decide +kernel
+  have h1 := h genTable hydrate _ hw (by decide +kernel : hydrate.result genTable = some
+    (.cons ⟨6, 0⟩ (.group (.cons ⟨2, 0⟩ (.atom ⟨1, 0, 0⟩) (.cons ⟨1, 0⟩ (.atom ⟨8, 0, 0⟩) .nil)))
+      (.cons ⟨1, 0⟩ (.atom ⟨20, 0, 0⟩) (.cons ⟨1, 0⟩ (.atom ⟨6, 0, 0⟩) (.cons ⟨3, 0⟩ (.atom ⟨8, 0, 0⟩) .nil))), none))
+  have h2 : parse genTable hydrate.text ≠ .ok
+      (.cons ⟨6, 0⟩ (.group (.cons ⟨2, 0⟩ (.atom ⟨1, 0, 0⟩) (.cons ⟨1, 0⟩ (.atom ⟨8, 0, 0⟩) .nil)))
+      (.cons ⟨1, 0⟩ (.atom ⟨20, 0, 0⟩) (.cons ⟨1, 0⟩ (.atom ⟨6, 0, 0⟩) (.cons ⟨3, 0⟩ (.atom ⟨8, 0, 0⟩) .nil))), none) := by
+    decide +kernel
+  exact h2 h1
 
 /-- the greedy reading, stated rather than hidden: the documented grammar lets a blank separate two
     groups, but the element loop of the implementation skips blanks, so a leading count also
